@@ -926,4 +926,235 @@ theorem dispatch_dynamo_name_old_defect :
 example : lower ".StAr".toList = extStar := by decide
 example : writeFmt "p.tbl".toList (some nmTbl) = .error .valueError ∧ readFmt "p.tbl".toList (some nmTbl) = .ok .dynamo := by decide
 
+/-! ## deepening: clipping amounts, centre picks, monotonicity, translates, counts -/
+
+/-- the two pads make up the box extent: `⌈e/2⌉ + ⌊e/2⌋ = e` -/
+theorem pads_sum (e : Nat) : leftPad e + rightPad e = e := by
+  unfold leftPad rightPad; omega
+
+/-- source extent + amount clipped at the lower face + amount clipped at the upper face = box extent -/
+theorem window_clip_sum (T e : Nat) (p : Int) :
+    (obsEnd T e p - obsBeg e p) + (obsBeg e p - (p - leftPad e)) + ((p + rightPad e) - obsEnd T e p) = e := by
+  unfold obsBeg obsEnd leftPad rightPad; omega
+
+/-- the destination offsets are exactly the clipped amounts: `cand_beg` is what was cut at the lower face,
+`e - cand_end` what was cut at the upper face (both non-negative) -/
+theorem cand_is_clip (T e : Nat) (p : Int) :
+    candBeg e p = obsBeg e p - (p - leftPad e) ∧ (e : Int) - candEnd T e p = (p + rightPad e) - obsEnd T e p ∧
+    0 ≤ obsBeg e p - (p - leftPad e) ∧ 0 ≤ (p + rightPad e) - obsEnd T e p := by
+  unfold candBeg candEnd obsBeg obsEnd leftPad rightPad; omega
+
+/-- a pick at the (upper) centre `⌈T/2⌉` of the target is full-size whenever the box is not larger than the target -/
+theorem centre_kept (T e : Nat) (h : e ≤ T) : keepAxis T e ((T - T / 2 : Nat) : Int) = true := by
+  rw [keep_iff_fits]; unfold leftPad rightPad; omega
+
+/-- … and so is the pick at the lower centre `⌊T/2⌋` when the box is strictly smaller -/
+theorem centre_floor_kept (T e : Nat) (h : e < T) : keepAxis T e ((T / 2 : Nat) : Int) = true := by
+  rw [keep_iff_fits]; unfold leftPad rightPad; omega
+
+/-- a box larger than the target never fits: every pick is dropped on that axis -/
+theorem box_too_large_dropped (T e : Nat) (p : Int) (h : T < e) : keepAxis T e p = false := by
+  have := keep_iff_fits T e p
+  unfold leftPad rightPad at this
+  cases hk : keepAxis T e p with
+  | false => rfl
+  | true => rw [hk] at this; simp only [true_iff] at this; omega
+
+/-- **monotone in the box size** (one axis): a pick kept for a box is kept for every smaller box -/
+theorem keepAxis_mono (T e e' : Nat) (p : Int) (he : e ≤ e') (h : keepAxis T e' p = true) :
+    keepAxis T e p = true := by
+  rw [keep_iff_fits] at *; unfold leftPad rightPad at *; omega
+
+/-- … and **monotone in the target size**: it stays kept when the target grows -/
+theorem keepAxis_mono_target (T T' e : Nat) (p : Int) (hT : T ≤ T') (h : keepAxis T e p = true) :
+    keepAxis T' e p = true := by
+  rw [keep_iff_fits] at *; omega
+
+/-- **translates**: two full-size picks differing by `t` have source windows that are translates by `t`
+and identical destination windows -/
+theorem window_translate (T e : Nat) (p t : Int) (h1 : keepAxis T e p = true) (h2 : keepAxis T e (p + t) = true) :
+    obsBeg e (p + t) = obsBeg e p + t ∧ obsEnd T e (p + t) = obsEnd T e p + t ∧
+    candBeg e (p + t) = candBeg e p ∧ candEnd T e (p + t) = candEnd T e p := by
+  rw [keep_iff_fits] at h1 h2
+  unfold candBeg candEnd obsBeg obsEnd leftPad rightPad at *; omega
+
+example : keepAxis 10 4 3 = true ∧ keepAxis 10 4 (3 + 5) = true ∧ keepAxis 10 4 ((10 - 10 / 2 : Nat) : Int) = true := by decide
+
+/-- never more windows than picks, and without `drop_out_of_box` exactly one per pick -/
+theorem extraction_count (T e : List Nat) (peaks : List (List Int)) (drop : Bool) :
+    (extraction T e peaks drop).length ≤ peaks.length ∧ (extraction T e peaks false).length = peaks.length := by
+  constructor
+  · unfold extraction
+    refine Nat.le_trans (List.length_filterMap_le _ _) ?_
+    simp
+  · unfold extraction
+    simp [List.filterMap_eq_map']
+
+/-- everything returned with `drop_out_of_box` is also returned without it (same position, same windows) -/
+theorem extraction_drop_subset (T e : List Nat) (peaks : List (List Int)) (i : Nat) (w : List (Int × Int × Int × Int))
+    (h : (i, w) ∈ extraction T e peaks true) : (i, w) ∈ extraction T e peaks false := by
+  rw [extraction_entry_iff] at *
+  obtain ⟨p, hp, _, hw⟩ := h
+  exact ⟨p, hp, Or.inl rfl, hw⟩
+
+/-- **monotone in the box size** (all axes): a pick kept for boxes `e'` is kept for boxes `e ≤ e'` axis by axis -/
+theorem keepPick_mono (T e e' : List Nat) (p : List Int) (he : List.Forall₂ (· ≤ ·) e e')
+    (h : keepPick T e' p = true) : keepPick T e p = true := by
+  induction he generalizing T p with
+  | nil => cases T <;> simp [keepPick]
+  | cons hab _ ih =>
+    cases T with
+    | nil => simp [keepPick]
+    | cons t Ts =>
+      cases p with
+      | nil => simp [keepPick]
+      | cons q ps =>
+        simp only [keepPick, Bool.and_eq_true] at h ⊢
+        exact ⟨keepAxis_mono _ _ _ _ hab h.1, ih _ _ h.2⟩
+
+example : List.Forall₂ (· ≤ ·) [2, 3] [4, 3] ∧ keepPick [10, 10] [4, 3] [5, 5] = true := by
+  refine ⟨?_, by decide⟩
+  exact .cons (by decide) (.cons (by decide) .nil)
+
+/-- the subset has as many rows as the index list is long, and the empty index list selects nothing -/
+theorem subset_empty {α : Type} (l : List α) : takeIdx l [] = .ok [] := rfl
+
+/-- **axis-order reversal** (zyx ↔ xyz, used by the STAR and Dynamo writers) is an involution in any dimension
+and keeps the number of coordinates -/
+theorem axis_reversal_involution (trans : List Str) :
+    trans.reverse.reverse = trans ∧ trans.reverse.length = trans.length := by
+  simp
+
+
+/-- **subsetting composes** (`a[i1][i2] = a[i1[i2]]`): selecting by `idx1` and then by `idx2` is selecting once by the
+composed index list `idx1[idx2]` (negative indices included; errors agree as well) -/
+theorem subset_compose {α : Type} (l : List α) (idx1 idx2 : List Int) (l1 : List α) (idx12 : List Int)
+    (h1 : takeIdx l idx1 = .ok l1) (h2 : takeIdx idx1 idx2 = .ok idx12) :
+    takeIdx l1 idx2 = takeIdx l idx12 := by
+  obtain ⟨hl, hk⟩ := takeIdx_spec l idx1 l1 h1
+  induction idx2 generalizing idx12 with
+  | nil =>
+    simp [takeIdx, pure, Except.pure] at h2
+    subst h2; rfl
+  | cons i is ih =>
+    rw [takeIdx_cons] at h2
+    cases hn : normIndex idx1.length i with
+    | error e => rw [hn] at h2; cases h2
+    | ok j =>
+      rw [hn] at h2
+      have hj := (normIndex_spec _ _ _ hn).1
+      simp only [bind, Except.bind, List.getElem?_eq_getElem hj, pure, Except.pure] at h2
+      cases hr : takeIdx idx1 is with
+      | error e => rw [hr] at h2; cases h2
+      | ok rest =>
+        rw [hr] at h2
+        injection h2 with h2
+        subst h2
+        obtain ⟨j', hn', hj', ho⟩ := hk j hj
+        have hjl : j < l1.length := by omega
+        rw [List.getElem?_eq_getElem hjl, List.getElem?_eq_getElem hj'] at ho
+        injection ho with ho
+        rw [takeIdx_cons, takeIdx_cons, hl, hn, hn', ih rest hr]
+        simp [bind, Except.bind, List.getElem?_eq_getElem hjl, List.getElem?_eq_getElem hj', pure, Except.pure, ho]
+
+example : takeIdx ['a','b','c'] [2, -3] = .ok ['c','a'] ∧ takeIdx ([2, -3] : List Int) [-1] = .ok [-3] ∧
+    takeIdx ['c','a'] [-1] = takeIdx ['a','b','c'] [-3] := by decide
+
+/-- **subsetting is row-wise**: it commutes with any per-row map — in particular with writing the rows and reading them
+back (`Table.ofRows` maps each field out of the rows), so subset-then-round-trip = round-trip-then-subset -/
+theorem subset_map {α β : Type} (f : α → β) (l : List α) (idx : List Int) :
+    takeIdx (l.map f) idx = (takeIdx l idx).map (List.map f) := by
+  induction idx with
+  | nil => rfl
+  | cons i is ih =>
+    rw [takeIdx_cons, takeIdx_cons, ih, List.length_map]
+    cases normIndex l.length i with
+    | error e => rfl
+    | ok k =>
+      simp only [bind, Except.bind, List.getElem?_map]
+      cases l[k]? with
+      | none => rfl
+      | some x => cases takeIdx l is <;> rfl
+
+/-- selecting by a concatenated index list concatenates the selections -/
+theorem subset_append {α : Type} (l : List α) (a b : List Int) (x y : List α)
+    (ha : takeIdx l a = .ok x) (hb : takeIdx l b = .ok y) : takeIdx l (a ++ b) = .ok (x ++ y) := by
+  induction a generalizing x with
+  | nil =>
+    simp [takeIdx, pure, Except.pure] at ha
+    subst ha; simpa using hb
+  | cons i is ih =>
+    rw [takeIdx_cons] at ha
+    cases hn : normIndex l.length i with
+    | error e => rw [hn] at ha; cases ha
+    | ok j =>
+      rw [hn] at ha
+      have hj := (normIndex_spec _ _ _ hn).1
+      simp only [bind, Except.bind, List.getElem?_eq_getElem hj, pure, Except.pure] at ha
+      cases hr : takeIdx l is with
+      | error e => rw [hr] at ha; cases ha
+      | ok rest =>
+        rw [hr] at ha
+        injection ha with ha
+        subst ha
+        rw [List.cons_append, takeIdx_cons, hn, ih rest hr]
+        simp [bind, Except.bind, List.getElem?_eq_getElem hj, pure, Except.pure]
+
+example : takeIdx [10, 20, 30] [0, -1] = .ok [10, 30] ∧ takeIdx [10, 20, 30] [1] = .ok [20] := by decide
+
+
+/-- **the kept set is monotone in the box size**: every pick returned under `drop_out_of_box` for boxes `e'` is also
+returned for boxes `e ≤ e'` (axis by axis) -/
+theorem extraction_mono_box (T e e' : List Nat) (peaks : List (List Int)) (i : Nat)
+    (he : List.Forall₂ (· ≤ ·) e e') (h : ∃ w, (i, w) ∈ extraction T e' peaks true) :
+    ∃ w, (i, w) ∈ extraction T e peaks true := by
+  obtain ⟨w, hw⟩ := h
+  rw [extraction_entry_iff] at hw
+  obtain ⟨p, hp, hk, _⟩ := hw
+  refine ⟨windowAxes T e p, ?_⟩
+  rw [extraction_entry_iff]
+  refine ⟨p, hp, Or.inr ?_, rfl⟩
+  cases hk with
+  | inl h => cases h
+  | inr h => exact keepPick_mono T e e' p he h
+
+/-- a negative index `i - n` selects the same row as `i` (numpy wrap-around) -/
+theorem index_wrap (n : Nat) (i : Int) (h0 : 0 ≤ i) (h1 : i < n) : normIndex n (i - n) = normIndex n i := by
+  have hl : normIndex n (i - n) = .ok i.toNat := by
+    unfold normIndex
+    rw [if_neg (by omega), if_pos (by omega)]
+    have : i - n + n = i := by omega
+    rw [this]; rfl
+  have hr : normIndex n i = .ok i.toNat := by
+    unfold normIndex
+    rw [if_pos ⟨h0, h1⟩]; rfl
+  rw [hl, hr]
+
+example : normIndex 5 (2 - 5) = .ok 2 := by decide
+
+
+/-- the rows of an integer selection are rows of the source -/
+theorem subset_mem {α : Type} (l : List α) (idx : List Int) (out : List α) (h : takeIdx l idx = .ok out) :
+    ∀ x ∈ out, x ∈ l := by
+  intro x hm
+  obtain ⟨k, hk, rfl⟩ := List.mem_iff_getElem.mp hm
+  obtain ⟨hlen, hsp⟩ := subset_rows_idx l idx out h
+  obtain ⟨j, hj, ho, _⟩ := hsp k (by omega)
+  rw [List.getElem?_eq_getElem hk, List.getElem?_eq_getElem hj] at ho
+  injection ho with ho
+  rw [ho]; exact List.getElem_mem hj
+
+/-- **subsetting commutes with the text round trip**: writing a subset and reading it back gives, array by array,
+the same as subsetting (with the same indices) what is read back from the full file -/
+theorem text_subset_commutes (d r : Nat) (hd : d ≤ 26) (hr1 : 1 ≤ r) (hr : r ≤ 26) (rows rows' : List Row)
+    (idx : List Int) (h : ∀ row ∈ rows, RowWf d r row) (hs : takeIdx rows idx = .ok rows') :
+    ∃ t t', readText (writeText d r rows) = .ok t ∧ readText (writeText d r rows') = .ok t' ∧
+      takeIdx t.trans idx = .ok t'.trans ∧ takeIdx t.rot idx = .ok t'.rot ∧
+      takeIdx t.score idx = .ok t'.score ∧ takeIdx t.detail idx = .ok t'.detail := by
+  have h' : ∀ row ∈ rows', RowWf d r row := fun row hm => h row (subset_mem rows idx rows' hs row hm)
+  refine ⟨_, _, text_roundtrip d r hd hr1 hr rows h, text_roundtrip d r hd hr1 hr rows' h', ?_, ?_, ?_, ?_⟩ <;>
+  · simp only [Table.ofRows]
+    rw [subset_map, hs]; rfl
+
+
 end Pm.C11
